@@ -199,11 +199,16 @@ def _install_noop(md, site):
 
 def build_jobs(tier, rnd):
     jobs = []
-    pairs = [(DOCS[0], DOCS[1]), (DOCS[1], DOCS[0]), (DOCS[2], DOCS[1]), (DOCS[3], DOCS[1]), (DOCS[1], DOCS[3])]
+    # the last pair: both calls deep in nested link labels (12 + 10 levels against maxNesting = 20 of commonmark):
+    # per-call budgets (nesting, recursion) must not be shared between overlapping calls
+    deep = (("render", "[[[[[[[[[[[[a]]]]]]]]]]]](/a) *[x](/y)*\n"), ("render", "[[[[[[[[[[b]]]]]]]]]](/b)\n"))
+    pairs = [(DOCS[0], DOCS[1]), (DOCS[1], DOCS[0]), (DOCS[2], DOCS[1]), deep, (DOCS[3], DOCS[1]), (DOCS[1], DOCS[3])]
     cfgs = CONFIGS if tier == "thorough" else ["commonmark", "js-default", "reconfigured"]
     info = {"ruler_points": 0, "other_points": 0}
     for cfg in cfgs:
-        for pa in (pairs if tier == "thorough" else pairs[:3]):
+        for pa in (pairs if tier == "thorough" else pairs[:4]):
+            if pa is deep and cfg != "commonmark" and tier != "thorough":
+                continue
             calls = list(pa)
             cnt, where, shared = plan_points(cfg, calls)
             n0 = cnt[0]
@@ -220,7 +225,7 @@ def build_jobs(tier, rnd):
                 info["all_library_lines"] = len(everywhere)
             info["shared_module_lines"] = info.get("shared_module_lines", 0) + len(firsts)
             if tier == "quick":
-                others = sorted(set(rnd.sample(others, min(60, len(others))) + firsts))
+                others = sorted(set(rnd.sample(others, min(400 if pa is deep else 60, len(others))) + firsts))
                 if jobs:  # quick: every bytecode of ruler.py for the first (config, pair), a sample for the rest
                     inr = sorted(rnd.sample(inr, min(250, len(inr))))
             info["ruler_points"] += len(inr)
